@@ -29,6 +29,7 @@ func init() {
 			ruleChunkLimits(c, r, "")
 			ruleOpMargin(c, r, "")
 			ruleRawCopy(c, r, "")
+			ruleReopenState(c, r, "")
 			ruleWriter2(c, r, t, "")
 			// "a chunk sequence ends with the end chunk": the source running dry at a chunk boundary is an
 			// unexpected EOF, never a clean end (EF-EOF over the LZMA2 reader); matches never reach behind a
